@@ -7,15 +7,12 @@ Theorems about the model `AsynqModel.Futures` for every future kind of the model
 self-completing provider, ConstFuture, ErrorFuture, AsyncTask with a non-blocking body) and every history of operations.
 Batches, batch items and blocking tasks are not kinds of this model.
 
-Hypotheses of `C10_spec_holds`:
-* `hstats` (`statsOk`: collect_perf_stats() can run for the task) is a fact the harness probes on the tree under test (true
-  on the current tree); `C10_statsOk_needed` shows that it cannot be dropped.
-* `hops` (`noWorseOps`: no subscriber raises an Exception `e` for which `qcore.safe_repr(e)` itself raises, i.e. `repr(e)`
-  raises an Exception whose `str()` raises) excludes the OPEN FINDING `subscriber-repr-error-escapes`: fix 591bc3e made
-  `FutureBase._computed` print `safe_repr(e)` instead of `repr(e)`, which swallows what `repr(e)` raises but not what
-  FORMATTING that exception raises (helpers.py:229-234, the `%s` sits in safe_repr's own except clause).  The model has the
-  code as it is (`subEscapes`), `C10_subscriber_repr_error_counterexample` exhibits the behaviour and shows that `hops`
-  cannot be dropped.
+The hypothesis of `C10_spec_holds` (`hstats`, `statsOk`: collect_perf_stats() can run for the task) is a fact the harness
+probes on the tree under test (true on the current tree); `C10_statsOk_needed` shows that it cannot be dropped.
+There is no hypothesis about subscribers: fix 591bc3e made `FutureBase._computed` print `safe_repr(e)` instead of `repr(e)`,
+fix 9f49616 guards `safe_repr` itself (it raises when FORMATTING what `repr(e)` raised raises: helpers.py:229-234), so no
+subscriber Exception leaves `_computed` (`subEscapes = false`).  `C10_subscriber_repr_error_repaired` replays the history of
+the former finding `subscriber-repr-error-escapes`; the observer keeps the clause of that name for a regression.
 -/
 namespace AsynqModel.Futures
 
@@ -241,38 +238,49 @@ example : ¬ (finalState (init (.lazyOk 1)) [.value, .reset, .value]).runs ≤ 0
 
 /-! ### the observer -/
 
-/-- **C10 as a whole** (partial: `hops` excludes the open finding): for every kind of future, every creation-time
-    configuration in which the perf-stats step of a task can run (`hstats`; a fact of the tree under test, probed by the
-    harness, true today) and every history of operations in which no subscriber raises an exception that defeats
-    `safe_repr` (`hops`), the observations of the model are accepted by the observer `spec` - the same Boolean function the
-    check evaluates on the observations of the real implementation.  Neither hypothesis can be dropped:
-    `C10_statsOk_needed`, `C10_subscriber_repr_error_counterexample`. -/
+/-- **C10 as a whole**: for every kind of future, every creation-time configuration in which the perf-stats step of a
+    task can run (`hstats`; a fact of the tree under test, probed by the harness, true today) and every history of
+    operations - whatever the subscribers raise -, the observations of the model are accepted by the observer `spec` - the
+    same Boolean function the check evaluates on the observations of the real implementation.  `hstats` cannot be
+    dropped: `C10_statsOk_needed`. -/
 theorem C10_spec_holds (k : Kind) (c : Cfg) (ops : List Op)
-    (hstats : k.isTask = true → c.statsOk = true) (hops : noWorseOps ops = true) :
-    spec k (run (init k c) ops) = true := by
-  obtain ⟨w', h⟩ := watchRun_ok k ops (watchInit k) (init k c) (rel_init k c hstats) hops
+    (hstats : k.isTask = true → c.statsOk = true) : spec k (run (init k c) ops) = true := by
+  obtain ⟨w', h⟩ := watchRun_ok k ops (watchInit k) (init k c) (rel_init k c hstats)
   simp [spec, h]
 
-/-- the OPEN FINDING `subscriber-repr-error-escapes` in the model (= the code as it is, correspondence-checked): a
-    subscriber raises an Exception whose `repr()` raises an Exception whose `str()` raises.  `set_value(2)` on an
-    uncomputed `Future` then RAISES what `str()` raised although the outcome is stored and both subscribers were notified
-    and read it; the computing `value()` of `Future(lambda: 1)` raises FutureIsAlreadyComputed while the future holds 1
-    (Future._compute's `except Exception: self.set_error(..)`); the observer rejects both with the finding's clause, so
-    `hops` of `C10_spec_holds` cannot be dropped.  Only the FIRST exception of a round counts (`safe_trigger` drops the
-    later ones): behind a subscriber raising a printable exception the same subscriber is harmless. -/
-theorem C10_subscriber_repr_error_counterexample :
+/-- the former finding `subscriber-repr-error-escapes` (repaired by /repo 9f49616): a subscriber raises an Exception whose
+    `repr()` raises an Exception whose `str()` raises.  In the model of the repaired code `set_value(2)` RETURNS, both
+    subscribers were notified and read the outcome, the computing `value()` of `Future(lambda: 1)` returns 1, and the
+    histories are accepted (lazyOk, taskErr, raisingWorse first or behind a printable raiser).  The observations of the tree
+    BEFORE the fix (the set raising what `str()` raised / the read raising FutureIsAlreadyComputed, everything else right)
+    are still rejected, with the clause of the finding: a regression is reported under that name. -/
+theorem C10_subscriber_repr_error_repaired :
     (run (init (.lazyOk 1)) [.subscribe 1 .raisingWorse, .subscribe 2 .good, .setValue 2]).map
         (fun ob => (ob.res, ob.cbs.map (fun c => (c.sub, c.seen)), ob.after))
       = [(.unit, [], none), (.unit, [], none),
-         (.raised .subRepr, [(1, some (.val 2)), (2, some (.val 2))], some (.val 2))] ∧
-    specClause (.lazyOk 1) (run (init (.lazyOk 1)) [.subscribe 1 .raisingWorse, .subscribe 2 .good, .setValue 2])
-      = "subscriber-repr-error-escapes@setValue" ∧
+         (.unit, [(1, some (.val 2)), (2, some (.val 2))], some (.val 2))] ∧
+    spec (.lazyOk 1) (run (init (.lazyOk 1)) [.subscribe 1 .raisingWorse, .subscribe 2 .good, .setValue 2]) = true ∧
     ((run (init (.lazyOk 1)) [.subscribe 1 .raisingWorse, .value]).map (fun ob => (ob.res, ob.after)))
-      = [(.unit, none), (.raised .alreadyComputed, some (.val 1))] ∧
-    spec (.lazyOk 1) (run (init (.lazyOk 1)) [.subscribe 1 .raisingWorse, .value]) = false ∧
-    spec (.taskErr 1) (run (init (.taskErr 1)) [.subscribe 1 .raisingWorse, .error]) = false ∧
+      = [(.unit, none), (.ok 1, some (.val 1))] ∧
+    spec (.lazyOk 1) (run (init (.lazyOk 1)) [.subscribe 1 .raisingWorse, .value]) = true ∧
+    spec (.taskErr 1) (run (init (.taskErr 1)) [.subscribe 1 .raisingWorse, .error]) = true ∧
     spec (.lazyOk 1) (run (init (.lazyOk 1)) [.subscribe 1 .raising, .subscribe 2 .raisingWorse, .setValue 2]) = true ∧
-    spec (.lazyOk 1) (run (init (.lazyOk 1)) [.subscribe 1 .raisingBad, .subscribe 2 .good, .setValue 2]) = true := by
+    specClause (.lazyOk 1)
+      [{ op := .subscribe 1 .raisingWorse, res := .unit, cbs := [], after := none, runs := 0 },
+       { op := .subscribe 2 .good, res := .unit, cbs := [], after := none, runs := 0 },
+       { op := .setValue 2, res := .raised .subRepr,
+         cbs := [{ sub := 1, seen := some (.val 2) }, { sub := 2, seen := some (.val 2) }], after := some (.val 2), runs := 0 }]
+      = "subscriber-repr-error-escapes@setValue" ∧
+    specClause (.lazyOk 1)
+      [{ op := .subscribe 1 .raisingWorse, res := .unit, cbs := [], after := none, runs := 0 },
+       { op := .value, res := .raised .alreadyComputed, cbs := [{ sub := 1, seen := some (.val 1) }],
+         after := some (.val 1), runs := 1 }]
+      = "subscriber-repr-error-escapes@value" ∧
+    specClause (.lazyOk 1)
+      [{ op := .subscribe 1 .raisingBad, res := .unit, cbs := [], after := none, runs := 0 },
+       { op := .setValue 2, res := .raised .subRepr, cbs := [{ sub := 1, seen := some (.val 2) }],
+         after := some (.val 2), runs := 0 }]
+      = "set@setValue" := by
   decide
 
 /-- the hypothesis `hstats` of `C10_spec_holds` cannot be dropped: a task whose perf-stats step cannot run,
@@ -360,20 +368,24 @@ example : (watchStep (.lazyOk 1) { known := some (.val 1), subs := [], runs := 1
 
 /-! ### the exception channels of a completion: subscribers, perf-stats step -/
 
-/-- **exceptions that `safe_repr` can print are swallowed**: a round in which no subscriber raises an exception that
-    defeats `safe_repr` (`noWorse`) lets nothing escape from `_computed` - however many subscribers raise (printable
-    exceptions or ones whose `repr()` raises), fail to unsubscribe, edit the handler list ...  (Induction over the walk
-    `firstRaise` of the snapshot with the changing live list; `subEscapes` is NOT constant: the counterexample theorem.) -/
-theorem C10_printable_exceptions_swallowed (subs : List Sub) (h : noWorse subs = true) : subEscapes subs = false :=
-  subEscapes_noWorse subs h
+/-- in which rounds the guard of 9f49616 is exercised at all: if no subscriber raises an exception that defeats
+    `safe_repr` (`noWorse`), `safe_repr` returns for the exception `safe_trigger` re-raises - however many subscribers
+    raise (printable exceptions or ones whose `repr()` merely raises), fail to unsubscribe, edit the handler list ...
+    A statement about the INPUT (induction over the walk `firstRaise` of the snapshot with the changing live list); since
+    9f49616 nothing escapes either way (`subEscapes _ = false` by definition), so this is listed under BY_CONSTRUCTION. -/
+theorem C10_printable_exceptions_swallowed (subs : List Sub) (h : noWorse subs = true) :
+    safeReprRaises subs = false ∧ subEscapes subs = false :=
+  ⟨safeReprRaises_noWorse subs h, rfl⟩
 
-/-- what decides the escape is the FIRST exception of the round only: if the first subscriber that raises at all raises
-    an exception that defeats `safe_repr`, the exception escapes whatever the others do; if it raises a printable one (or
-    one whose `repr()` merely raises), nothing escapes whatever the later ones raise -/
+/-- what decides whether `safe_repr` raises in `_computed` is the FIRST exception of the round only (`safe_trigger` drops
+    the later ones): if the first subscriber that raises at all raises an exception that defeats `safe_repr`, it does,
+    whatever the others do; if it raises a printable one (or one whose `repr()` merely raises), it does not, whatever the
+    later ones raise.  (About the input, like the previous statement: which rounds the observer's regression clause
+    `subscriber-repr-error-escapes` can name.) -/
 theorem C10_first_exception_decides (pre post : List Sub) (s : Sub)
     (hpre : ∀ t ∈ pre, t.2 = .good ∨ ∃ o, t.2 = .reenter o) :
-    (s.2 = .raisingWorse → subEscapes (pre ++ s :: post) = true) ∧
-    ((s.2 = .raising ∨ s.2 = .raisingBad) → subEscapes (pre ++ s :: post) = false) := by
+    (s.2 = .raisingWorse → safeReprRaises (pre ++ s :: post) = true) ∧
+    ((s.2 = .raising ∨ s.2 = .raisingBad) → safeReprRaises (pre ++ s :: post) = false) := by
   have key : ∀ (l live : List Sub), (∀ t ∈ l, t.2 = .good ∨ ∃ o, t.2 = .reenter o) →
       firstRaise live (l ++ s :: post) = firstRaise live (s :: post) := by
     intro l
@@ -386,9 +398,9 @@ theorem C10_first_exception_decides (pre post : List Sub) (s : Sub)
       rcases ht with ht | ⟨o, ht⟩ <;> simp [firstRaise, behRaises, applyBeh, ht, ih _ hts]
   constructor
   · intro hs
-    simp [subEscapes, key pre _ hpre, firstRaise, behRaises, hs]
+    simp [safeReprRaises, key pre _ hpre, firstRaise, behRaises, hs]
   · intro hs
-    rcases hs with hs | hs <;> simp [subEscapes, key pre _ hpre, firstRaise, behRaises, hs]
+    rcases hs with hs | hs <;> simp [safeReprRaises, key pre _ hpre, firstRaise, behRaises, hs]
 
 /-- the plain answer of the operation that completes a future of kind `k` with `o` -/
 def plainRes (k : Kind) (op : Op) (o : Outc) : Res :=
@@ -405,7 +417,7 @@ def completerRes (f : Fut) (op : Op) (o : Outc) : Res :=
   else plainRes f.kind op o
 
 /-- **the completer's answer**, from ANY uncomputed state and for whichever operation completes the future: the
-    exception that leaves `safe_repr(e)` for the first exception `e` a subscriber raised, if there is one (`subEscapes`; a
+    exception that leaves `_computed` for the first exception `e` a subscriber raised, if there is one (`subEscapes`: none since 9f49616; a
     `Future` with a returning provider turns it into FutureIsAlreadyComputed); otherwise the exception of the perf-stats
     step if that cannot run (`hookFails`); otherwise the plain answer.  In ALL three cases the outcome is stored and every
     subscriber of the snapshot is notified once, reading it. -/
@@ -426,15 +438,16 @@ theorem C10_completer_result (f : Fut) (op : Op) (o : Outc)
       readValue, readError] <;>
     (try (cases o <;> simp_all [hookFails, Kind.isTask])))
 
-/-- **"even if another subscriber raises an Exception"**: if no subscriber of the round raises an exception that
-    defeats `safe_repr` and the perf-stats step can run, the completer gets the plain answer and everybody is notified
-    once, reading the outcome (both hypotheses are needed: `C10_subscriber_repr_error_counterexample`, the first example
-    of the section "non-vacuity and rejection examples") -/
+/-- **"even if another subscriber raises an Exception"**: whatever the subscribers of the round raise (printable or
+    not), if the perf-stats step can run the completer gets the plain answer and everybody is notified once, reading the
+    outcome (`hh` is needed: the first example of the section "non-vacuity and rejection examples"; the former hypothesis
+    `noWorse` went away with /repo 9f49616) -/
 theorem C10_raising_subscribers_swallowed (f : Fut) (op : Op) (o : Outc)
-    (h0 : f.out = none) (h1 : (step f op).1.out = some o) (hnb : noWorse f.subs = true) (hh : hookFails f = false) :
+    (h0 : f.out = none) (h1 : (step f op).1.out = some o) (hh : hookFails f = false) :
     (step f op).2.1 = plainRes f.kind op o ∧ (step f op).2.2 = f.subs.map (notif o) := by
   have h := C10_completer_result f op o h0 h1
-  simp only [completerRes, subEscapes_noWorse f.subs hnb, hh] at h
+  have hesc : subEscapes f.subs = false := rfl
+  simp only [completerRes, hesc, hh] at h
   simpa using h
 
 /-! ### debug options switched while the future is in flight -/
@@ -458,20 +471,16 @@ theorem C10_quiet_ops (f : Fut) (op : Op) (h : op.quiet = true) :
     exception of the step reaches the completer exactly when the future is such an AsyncTask and COLLECT_PERF_STATS is on
     at that moment (`hookFails`) - and in BOTH cases the outcome is stored and every subscriber of the snapshot is
     notified once, reading it.  (AsyncTask._computed runs the step inside `try: ... finally: FutureBase._computed(self)`.)
-    `hesc`: no subscriber exception escapes from the finally clause (it would replace the exception of the step: example
-    after the theorem). -/
+    (No subscriber exception escapes from the finally clause since 9f49616, so the former hypothesis `hesc` is gone.) -/
 theorem C10_hook_failure_after_notification (f : Fut) (op : Op) (o : Outc)
-    (h0 : f.out = none) (h1 : (step f op).1.out = some o) (hesc : subEscapes f.subs = false) :
+    (h0 : f.out = none) (h1 : (step f op).1.out = some o) :
     ((step f op).2.1 = .raised .hook ↔ hookFails f = true) ∧ (step f op).2.2 = f.subs.map (notif o) := by
   have h := C10_completer_result f op o h0 h1
+  have hesc : subEscapes f.subs = false := rfl
   refine ⟨?_, h.2⟩
   rw [h.1]
   cases hf : hookFails f <;> simp [completerRes, hesc, hf, plainRes]
   (repeat' split) <;> simp_all [readValue, readError] <;> (repeat' split) <;> simp_all
-
-/-- necessity of `hesc`: what escapes from the finally clause (FutureBase._computed) replaces the exception of the step -/
-example : (step { (init (.taskOk 1) { statsOk := false, perf := true }) with subs := [(1, .raisingWorse)] } .value).2.1
-    = .raised .subRepr := by decide
 
 /-- only `option COLLECT_PERF_STATS` changes whether the step will fail; whether it CAN run is fixed at creation -/
 theorem C10_hook_state (f : Fut) (op : Op) :
